@@ -462,6 +462,82 @@ def synth_case(libs, case, st):
         st.nt(case)
 
 
+# ------------------------------------------------------------------ crafted near-misses
+def crafted_case(libs, case, st):
+    """(a) recover against every valid encryption key whose X differs from the real one only in its first or last byte;
+       (b) adaptor signatures whose R has X == n (r = X mod n = 0) with an honest DLEQ proof for a crafted encryption key:
+           the adaptor equation then holds for EVERY signer key, so only the r != 0 rule rejects them"""
+    kind = case[0]
+    C, n = SECP, N
+    if kind == "near-key":
+        _, x, y, m32 = case
+        Y = C.mulG(y)
+        for L in libs:
+            a = buf(162)
+            if L.ecdsa_adaptor_encrypt(L.ctx, a, buf(b32(x)), pubkey_from_point(L, Y), m32, None, None) != 1:
+                st.fail("encrypt failed on valid input", {"cfg": L.config})
+                continue
+            sig = buf(64)
+            assert L.ecdsa_adaptor_decrypt(L.ctx, sig, b32(y), a.raw) == 1
+            comp = sig_compact(L, sig)
+            r_, s_ = i32(comp[:32]), i32(comp[32:])
+            xb = bytearray(b32(Y[0]))
+            for pos in (31, 0, 15):
+                for d in range(1, 256):
+                    xb2 = bytearray(xb)
+                    xb2[pos] ^= d
+                    x2 = i32(bytes(xb2))
+                    for odd in (0, 1):
+                        Y2 = C.lift_x(x2, odd) if x2 < C.p else None
+                        if Y2 is None:
+                            continue
+                        want = A.recover(r_, s_, a.raw, Y2)
+                        out = buf(32)
+                        got = L.ecdsa_adaptor_recover(L.ctx, out, sig, a.raw, pubkey_from_point(L, Y2))
+                        st.calls += 1
+                        st.count("near-key-%s" % ("recover" if want is not None else "refuse"))
+                        if (got == 1) != (want is not None):
+                            st.fail("recover with an encryption key differing from the real one in byte %d of X: ret=%d, expected %s" % (pos, got, "key" if want is not None else "refusal"),
+                                    {"cfg": L.config, "x": hex(x), "y": hex(y), "enckey_x": hex(x2)})
+            # positive control
+            out = buf(32)
+            if L.ecdsa_adaptor_recover(L.ctx, out, sig, a.raw, pubkey_from_point(L, Y)) != 1 or out.raw != b32(y):
+                st.fail("recover with the real encryption key failed", {"cfg": L.config})
+            st.nt(case[1:3])
+            if L.illegal or L.errors:
+                st.fail("callback fired on legal input", {"cfg": L.config})
+                L.cb_reset()
+    else:
+        _, k, m, odd = case
+        R = C.lift_x(n, odd)                       # X == n is on the curve; r = X mod n = 0
+        Y = C.mul(pow(k, -1, n), R)
+        Rp = C.mulG(k)
+        sp = m * pow(k, -1, n) % n
+        pr = A.dleq_prove(C, k, Y, Rp, R, lambda *a_: b32(12345))
+        if pr is None or sp == 0:
+            return
+        a = A.encode(C, R, Rp, sp, pr[0], pr[1])
+        for L in libs:
+            for xk in (1, 2, 77, n - 1):
+                X = C.mulG(xk)
+                ok, why = A.verify(a, X, b32(m), Y)
+                got = L.ecdsa_adaptor_verify(L.ctx, a, pubkey_from_point(L, X), b32(m), pubkey_from_point(L, Y))
+                st.calls += 1
+                st.count("r=0-forgery-%s" % ("model-accept" if ok else "model-reject"))
+                if (got == 1) != ok:
+                    st.fail("adaptor_verify=%d on a signature whose R has X == n (r = 0), valid DLEQ for a crafted encryption key; model: %s" % (got, why),
+                            {"cfg": L.config, "adaptor": hx(a), "signer": hex(xk), "msg": hex(m)})
+            # decrypt / recover on it must refuse as well (r = 0)
+            sig = buf(b"\x5a" * 64)
+            if L.ecdsa_adaptor_decrypt(L.ctx, sig, b32(5), a) != 0:
+                st.fail("adaptor_decrypt accepted an adaptor signature with r = 0", {"cfg": L.config, "adaptor": hx(a)})
+            if L.illegal or L.errors:
+                st.fail("callback fired on legal input", {"cfg": L.config})
+                L.cb_reset()
+        st.nt(case)
+    st.sample({"case": [str(c)[:40] for c in case]})
+
+
 # ------------------------------------------------------------------ exported default nonce function
 def nonce_case(libs, case, st):
     msg, key, pk, algo, aux = case
@@ -832,6 +908,10 @@ def main():
               for al in algos for aux in (None, bytes(32), f[4])]
     phase("prod/default-nonce-function", nonce_case, ncases, setup=pipe_setup(prods),
               rule="exported secp256k1_nonce_function_ecdsa_adaptor == BIP-340-style tagged hash model for 2 msgs x 2 keys x 2 pubkeys x 9 algo tags (+NULL) x aux {NULL,00,filler}")
+    ccases = [("near-key", x, y, m) for (x, y) in ((1, 2), (fk[0], fk[1]), (n - 1, n - 2)) for m in (b32(1), f[3])]
+    ccases += [("r=0", k, m, odd) for k in (2, 3, fk[2]) for m in (1, 2, n - 1) for odd in (0, 1)]
+    phase("prod/crafted-near-misses", crafted_case, ccases, setup=pipe_setup(prods),
+          rule="recover against EVERY valid encryption key whose X differs from the real key in one byte (first, middle or last byte x 255 values x both parities); adaptor signatures with R.x == n (r = 0) carrying an honest DLEQ proof for a crafted encryption key (valid for every signer key unless r = 0 is rejected)")
     phase("prod/api-arguments", api_case, [0], setup=pipe_setup(prods), nproc=1,
               rule="every pointer argument NULL, static context where a signing context is required, zeroed pubkey objects: illegal callback >= 1 and return 0")
 
